@@ -395,6 +395,84 @@ func runEvidenceCase(o *drv.Out, ci int, wired bool) {
 			ec.process([]ev{e}, "dev:"+d.tag)
 		}
 	}
+	// … FORGED partial certificates (permanent shape): for a genuine certificate, a second certificate of the same
+	// view over another payload whose bitmap names a MINORITY of honest signers of the genuine one and whose
+	// signature is garbage, the genuine certificate's own signature (replayed), or a Byzantine member's signature
+	// alone. Evidence accepts partial certificates, so everything rests on the aggregate being verified even when
+	// the bitmap is below +2/3: the honest members named must never come out as double signers …
+	nForged := 0
+	for _, g := range base {
+		if nForged >= 4 {
+			break
+		}
+		hd := g.qc.Header
+		if hd == nil || hd.Phase <= lib.Phase_PROPOSE || ec.expired(hd.RootHeight) {
+			continue
+		}
+		// an honest signer of the genuine certificate whose power alone stays below +2/3
+		victim := -1
+		for _, pt := range g.parts {
+			i := g.com.idx(pt.v)
+			if i >= 0 && !ec.byz[pt.v] && g.com.powers[i] < g.com.vs.MinimumMaj23 {
+				victim = i
+				break
+			}
+		}
+		if victim < 0 {
+			continue
+		}
+		nForged++
+		for kind := 0; kind < 3; kind++ {
+			q := &lib.QuorumCertificate{Header: hd.Copy(), BlockHash: h32(fmt.Sprintf("forged-partial-%d-%d", nForged, kind)), ResultsHash: h32("forged-results")}
+			bm := make([]byte, len(g.qc.Signature.Bitmap))
+			bm[victim/8] |= 1 << uint(victim%8)
+			fc := &cert{qc: q, com: g.com, sigLenOK: true}
+			switch kind {
+			case 0: // 96 bytes of garbage
+				q.Signature = &lib.AggregateSignature{Signature: drv.Bytes(r, 96), Bitmap: bm}
+				fc.tag = "forged-partial-garbage-signature"
+			case 1: // the genuine certificate's own aggregate, replayed under another payload and bitmap
+				q.Signature = &lib.AggregateSignature{Signature: append([]byte{}, g.qc.Signature.Signature...), Bitmap: bm}
+				fc.parts = g.parts
+				fc.tag = "forged-partial-replayed-signature"
+			default: // a real signature over the forged payload — by a Byzantine member, while the bitmap names the honest one
+				var bi []int
+				for i, m := range g.com.ms {
+					if ec.byz[m] {
+						bi = append(bi, i)
+						break
+					}
+				}
+				if len(bi) == 0 {
+					continue
+				}
+				sg, parts := aggregate(ec.w, g.com, bi, q)
+				q.Signature = &lib.AggregateSignature{Signature: sg.Signature, Bitmap: bm}
+				fc.parts = parts
+				fc.tag = "forged-partial-foreign-signature"
+			}
+			ec.addCert(fc)
+			for _, e := range []ev{{a: g, b: fc}, {a: fc, b: g}} {
+				ec.process([]ev{e}, fc.tag)
+			}
+			// and a proposer's list naming the victim, against that evidence
+			claim := []*lib.DoubleSigner{{Id: g.com.ms[victim].pub, Heights: []uint64{hd.RootHeight}}}
+			be := []ev{{a: g, b: fc}}
+			op := fmt.Sprintf("validate slash=%s be=%s", dsListStr(claim), evsDesc(be))
+			res := guard(func() string {
+				if err := ec.b.ValidateByzantineEvidence(&lib.SlashRecipients{DoubleSigners: claim}, &bft.ByzantineEvidence{DSE: bft.NewDSE(evsReal(be))}); err != nil {
+					return eid(err)
+				}
+				return "ok"
+			})
+			ec.op(op, res)
+			o.Count("validate:" + fc.tag + ":" + strings.SplitN(res, "/", 2)[0])
+			if res == "ok" {
+				ec.oracleImplicated("ValidateByzantineEvidence", claim, op)
+			}
+		}
+	}
+	o.Hist["forged-partial:genuine-certificates-attacked"] += nForged
 	ec.process([]ev{{isNil: true}}, "nil-evidence")
 	ec.process([]ev{{a: base[0]}}, "nil-vote")
 	ec.process([]ev{{b: base[0]}}, "nil-vote")
